@@ -80,6 +80,60 @@ CHECKS = {
         "divergences must agree to 1e-12 and, where the property says so, the complete decision trace must be identical.",
         "Trusted: the recomputation of the kdq divergence from to_plotly_dataframe() and of the NNPS distance through the public partitioner API.",
     ),
+    "C03": (
+        "bounded exhaustive exploration of real-valued streams on the real ADWIN in lock-step with a raw-window reference model; twin oracle for ADWINAccuracy",
+        "Every stream over {0,1} (2^14) and {0,1,5} (3^9) for a covering subset of the parameter grid, long default histories (L=96) with every choice "
+        "of <= 2 deviations, and exhaustive suffixes from 70-sample non-initial states are executed on the real ADWIN and compared after every "
+        "update with a model that keeps the raw window (exact arithmetic) and the chronological bucket sizes: mean, variance, window width, the "
+        "documented epsilon-cut decision on every admissible bucket-boundary split, retraining_recs, counters. ADWINAccuracy(**p) fed label pairs "
+        "must equal ADWIN(**p) fed the agreement indicators bit-for-bit on all 2^12 sequences for non-default p.",
+        "Trusted: the epsilon-cut formulas and the exponential-histogram row rule documented in adwin.py are taken as the specification; "
+        "comparisons within 1e-9 of the cut threshold follow the implementation (counted).",
+    ),
+    "C04": (
+        "bounded exhaustive exploration of integer-valued streams on the real CUSUM / PageHinkley in lock-step with exact-arithmetic (Fraction) reference models",
+        "Every stream over {-2,0,1,4} up to depth 6-8 for the whole parameter grid (direction x burn_in x delta x threshold x given/estimated "
+        "target) plus L=40 level-shift histories with every choice of <= 2 deviations (4-6 alarms each) is executed on the real detectors; the "
+        "CUSUM recurrences with (re-)estimated mean/sd and the Page-Hinkley test incl. every to_dataframe() column are predicted in exact rational "
+        "arithmetic; dyadic configurations enforce exact ties so > vs >= is decided.",
+        "Trusted: models/seqtests.py; irrational standard deviations use math.sqrt with the 1e-9 margin rule; CUSUM with burn_in=0 is closed at "
+        "its first alarm (no carry-over defined).",
+    ),
+    "C14": (
+        "exhaustive fault enumeration (one malformed call at every position x fault kind x container) over short valid histories, differential oracle against a twin that never saw the call; exhaustive container assignments",
+        "For all 15 detectors: every valid base history of the driver (with a drift and a set_reference inside) x one malformed call at every "
+        "position x every applicable fault kind x container of the call and of its neighbours; the call must raise ValueError, change no public "
+        "observable, and every later observation must equal bit-for-bit that of a twin that never saw it (including that later valid calls are "
+        "accepted). Container equivalence: every assignment of scalar/list/ndarray/Series/DataFrame to a length-4 history gives identical traces.",
+        "Trusted: the two-field specification state (width fixed by the first accepted input, names by the first accepted DataFrame); one recorded "
+        "finding (first DataFrame of another width after ndarray input on batch detectors, pinned by test_batch_validation_X_dimensions). A "
+        "malformed call made while drift_state == 'drift' may perform the pending re-initialisation; persistent effects are still judged through the twin.",
+    ),
+    "C15": (
+        "exhaustive enumeration of overwrite positions x container layouts over short drifting histories, differential oracle against a twin fed private copies; before/after fingerprints of every argument",
+        "All 15 detectors plus both ensembles: scripted prefixes that reach an alarm followed by every suffix of 2-3 events, in six container layouts "
+        "(C/Fortran ndarray, strided view, single- and mixed-dtype DataFrame, DataFrame over a caller array); after exactly one call (every "
+        "position) and after all calls the caller overwrites in place what it passed; arguments must be bitwise unchanged by the call and every "
+        "public observable must equal that of a twin fed private copies. All injectors: every window x argument menu; input and dict arguments "
+        "unchanged, result of the input's container type sharing no memory with it.",
+        "Trusted: an overwrite is an in-place write through the passed object; snapshots re-execute the recorded calls (a deepcopy would cut the aliasing under test).",
+    ),
+    "C16": (
+        "bounded exhaustive enumeration of outcome sequences x label encodings / unused-argument variants, differential oracle against the canonical run",
+        "DDM, EDDM, STEPD, ADWINAccuracy: all 2^10 outcome sequences under 14 encodings of (y_true, y_pred) and every choice of <= 2 positions "
+        "re-encoded differently; LinearFourRates: all 4^5 cell sequences under 6 int-like encodings; every detector: junk values for the arguments "
+        "it documents as unused. The canonical and the variant detector run under identical seeds and every public observable is compared bit-for-bit after every update.",
+        "Trusted: agreement = equality of two labels of the same kind; a twin oracle cannot see defects that affect both runs equally (those are C05/C06).",
+    ),
+    "C20": (
+        "exhaustive enumeration of small data sets x every window x every column/class choice x every answer of the stubbed random source",
+        "All 8 injectors on float/int ndarrays and float/int/mixed/string-label DataFrames of 1-5 rows: every window 0 <= from <= to <= n, every "
+        "column (pair), class (pair, incl. equal and absent), shift factor, probability vector; numpy.random.choice / dirichlet are replaced inside "
+        "the harness by a stub that records the probability vector and is driven through every possible answer (all +-1 walks, all resample index "
+        "vectors). Oracles: container type, shape, labels, frame condition outside the window / other columns, exact documented effect inside, input unchanged.",
+        "Trusted: exactly one weighted np.random.choice per resample (draw protocol); the probability clause is judged on the weight vector handed "
+        "to the generator; one recorded finding (Brownian noise truncated on integer data, pinned by test_brownian_noise_1).",
+    ),
     "C05": (
         "bounded exhaustive enumeration of all binary outcome sequences on the real detectors, lock-step against executable specifications",
         "Every binary outcome sequence up to the stated length is executed on the real DDM/EDDM/STEPD objects for every "
